@@ -464,7 +464,7 @@ class Ctx:
                     got[os.path.normpath(r["path"].replace("/", os.sep))] = r
             want = exp.get(h, {})
             for p in sorted(set(want) - set(got)):
-                if new[h] or not sf:
+                if True:
                     self.bad(f"history '{h or '.'}': {p!r} is not matched by {eff} but has no record in the new generation", f"{wc}/unmatched-not-recorded", args=args)
             for p in sorted(set(got) - set(want)):
                 outer = os.path.normpath(os.path.join(h, p))
@@ -835,7 +835,7 @@ def main():
         "non-trivial = distinct (family, tree, placement, pattern set, delivery, spelling, flow) with a user pattern or a default-ignored entry; "
         "every new manifest, every printed report line, every printed directory hash and every opened file is compared with the oracle",
         bound="11 trees (<= 15 entries, depth <= 4; prefix siblings, case pairs, spaces, NFC/NFD, XML-special, U+2028, symlinks incl. dangling, "
-        "empty files/folders/tree, files of 2^20-1 / 2^20 / 2^20+1 bytes), <= 3 nested histories (3 levels), 83 pattern sets of <= 3 patterns "
+        "empty files/folders/tree, files of 2^20-1 / 2^20 / 2^20+1 bytes), <= 3 nested histories (3 levels), 73 pattern sets of <= 4 patterns plus the scripted ones "
         "(base names, globs ? * ** [], trailing-slash, anchored, inner slash, negation), 8 deliveries (-i, --ignore, repeated, -ii, --ignore_spec "
         "with blank lines / no final newline, mixed, relative -ii, split), 6 root spellings, <= 14 generations scripted (quick) / <= 20 random (thorough)",
     )
